@@ -12,6 +12,7 @@ package httpserver
 
 import (
 	"bytes"
+	"crypto/tls"
 	"encoding/json"
 	"fmt"
 	"io"
@@ -86,6 +87,8 @@ type c01Req struct {
 	Remote  string      `json:"remote"`            // RemoteAddr
 	Body    int         `json:"body,omitempty"`    // number of body bytes sent
 	Chunked bool        `json:"chunked,omitempty"` // length not declared (ContentLength -1)
+	// SNI: the request arrives on a TLS connection with this ServerName ("-" = TLS without a server name)
+	SNI string `json:"sni,omitempty"`
 }
 
 // oracle tables: values of external functions computed with the real libraries
@@ -310,6 +313,11 @@ func c01StdReq(r c01Req) *http.Request {
 	}
 	req := &http.Request{Method: r.Method, URL: &url.URL{Path: r.Path, RawPath: r.RawPath}, Host: r.Host, Header: hdr,
 		RemoteAddr: r.Remote, Body: http.NoBody, Proto: "HTTP/1.1", ProtoMajor: 1, ProtoMinor: 1, RequestURI: uri}
+	if r.SNI == "-" {
+		req.TLS = &tls.ConnectionState{}
+	} else if r.SNI != "" {
+		req.TLS = &tls.ConnectionState{ServerName: r.SNI}
+	}
 	if r.Body > 0 || r.Chunked {
 		req.Body = io.NopCloser(bytes.NewReader(bytes.Repeat([]byte{'x'}, r.Body)))
 		req.ContentLength = int64(r.Body)
@@ -508,9 +516,9 @@ var (
 	c01HostREs  = []string{`^a\.`, `\.com$`, `^[ab]\.com$`, `^www\..*$`, `.*`, `^a\.com$`}
 	c01ReqHosts = []string{"a.com", "b.com", "a.co", "www.a.com", "x.org", "a.com:80", "b.com:8080", "[::1]:80", "[::1]", "a.com:", "a.com:80:90", "", "A.com", "a.comm", "www.a.com:443", "[a.com]:80", "a.com]:80", "api.example.com", "API.EXAMPLE.COM:80", "[::1]:8080", "::1"}
 	c01Paths    = []string{"/a", "/ab", "/a/b", "/b", "/", "/a/"}
-	c01Prefixes = []string{"/a", "/a/", "/", "/b", "/ab"}
+	c01Prefixes = []string{"/a", "/a/", "/", "/b", "/ab", "/.well-known/", "/.well-known/acme-challenge"}
 	c01PathREs  = []string{`^/a(.*)$`, `/([a-z]+)/([0-9]+)`, `^/b$`, `^/[ab]+$`, `a`, `^/(a|b)/`, `^/a/[^/]+$`, `^/a/(.*)$`}
-	c01ReqPaths = []string{"/a", "/ab", "/a/b", "/b", "/", "/a/", "/a/b/1", "/x/12", "", "/ab/12", "/c", "/abc", "/B", "/a/12", "/b/", "/a/A", "/a%b", "/a?b"}
+	c01ReqPaths = []string{"/a", "/ab", "/a/b", "/b", "/", "/a/", "/a/b/1", "/x/12", "", "/ab/12", "/c", "/abc", "/B", "/a/12", "/b/", "/a/A", "/a%b", "/a?b", "/.well-known/acme-challenge/tok", "/.well-known/acme-challenge", "/.well-known/acme-challenges.json", "/.well-known/acme-challenge-status/7", "/.well-known/acme", "/.well-known/acme-challenge/"}
 	// the full list the schema's httpmethod-array format allows (pkg/v/format.go), in its order
 	c01Methods   = []string{"GET", "HEAD", "POST", "PUT", "PATCH", "DELETE", "CONNECT", "OPTIONS", "TRACE"}
 	c01ReqMeths  = []string{"GET", "HEAD", "POST", "PUT", "PATCH", "DELETE", "CONNECT", "OPTIONS", "TRACE", "mGET", "get", "mPOST", "PURGE"}
@@ -519,8 +527,8 @@ var (
 	c01HdrREs    = []string{`^v[0-9]$`, `^$`, `1`, `.*`, `^v1`, `.+`, `^10\.`}
 	c01Rewrites  = []string{"/new", "/n$1", "/r/$2/$1", "/new/", "/", "new", "$1", "v2/$1", "$2", "n$1/"}
 	c01Backends  = []string{"A", "B", "C"}
-	c01ClientIPs = []string{"10.0.0.8", "10.0.0.9", "10.0.1.1", "192.168.1.1", "8.8.8.8", "2001:db8::1", "9.9.9.9"}
-	c01FilterIPs = []string{"10.0.0.8", "10.0.0.9", "10.0.0.0/24", "10.0.0.0/16", "8.8.8.8", "8.8.0.0/16", "2001:db8::/32", "192.168.1.1", "0.0.0.0/0"}
+	c01ClientIPs = []string{"10.0.0.8", "10.0.0.9", "10.0.1.1", "192.168.1.1", "8.8.8.8", "2001:db8::1", "9.9.9.9", "::ffff:10.0.0.8", "::ffff:a00:8", "::FFFF:0A00:0008", "0:0:0:0:0:ffff:808:808", "2001:0db8:0000:0000:0000:0000:0000:0001", "2001:DB8::1", "::ffff:c633:6407", "198.51.100.7", "010.0.0.8", "fe80::1%eth0"}
+	c01FilterIPs = []string{"10.0.0.8", "10.0.0.9", "10.0.0.0/24", "10.0.0.0/16", "8.8.8.8", "8.8.0.0/16", "2001:db8::/32", "192.168.1.1", "0.0.0.0/0", "198.51.100.7", "198.51.100.0/24"}
 )
 
 func c01Pick(r *vfRand, xs []string) string { return xs[r.Intn(len(xs))] }
@@ -772,6 +780,23 @@ func c01GenReq(r *vfRand, s c01Server, withIP bool) c01Req {
 		remote, hs := c01GenRemote(r)
 		q.Remote = remote
 		q.Headers = append(q.Headers, hs...)
+	}
+	if r.Chance(1, 20) { // paths sharing a prefix with the reserved ACME route
+		q.Path = r.PickStr("/.well-known/acme-challenge/tok", "/.well-known/acme-challenge", "/.well-known/acme-challenges.json",
+			"/.well-known/acme-challenge-status/7", "/.well-known/acme-challenge/", "/.well-known/x")
+	}
+	if r.Chance(1, 8) { // TLS connection: server name equal to / different from the Host header / absent
+		switch r.Intn(4) {
+		case 0:
+			q.SNI = c01Hostname(q.Host)
+		case 1:
+			q.SNI = "-"
+		default:
+			q.SNI = c01Pick(r, c01Hosts)
+		}
+		if q.SNI == "" {
+			q.SNI = "-"
+		}
 	}
 	if r.Chance(1, 5) { // the same decoded path in another wire encoding
 		q.RawPath = c01EncodePath(r, q.Path)
